@@ -8,6 +8,8 @@
 //!          Elements travel in their protocol spelling: the decimal text std's `to_string` gives for an integer (never
 //!          rlib_io's rendering), the code point in decimal for a char, the components joined by ',' for a tuple.
 //!          char and tc are Readable but not Writable: `w` / `rt` are not available for them.
+//!          unit = (), zst = a zero-sized struct, f64 (integers, "-0", "nan"), tri = No / Yes / Unknown ("nan", never equal):
+//!          see `run_lite` (ranks 0..4; ops gi g s it dm eq im sq; data of a zero-sized type may be `*L`).
 //!   ctor = V (from_vec) | S (from_slice) | N v (new; the data list is still parsed, and ignored)
 //!   op   = gi i*D | g i*D | s i*D v | it | dm | w | rt | db | rd r*D text | eq e*D m y*m | im m v*m
 //!   text = written bytes with ' ' -> '_', '\n' -> '/', '\r' -> '\\', '\t' -> '~' ("." = empty)
@@ -680,6 +682,240 @@ fn low_rank<E: Elem>(rank: &str, t: &[&str]) -> String {
     }
 }
 
+// ------------------------------------------------------------------------------------------------------------------
+// Element types outside rlib_io ("lite": Clone + PartialEq + Debug only): the zero-sized `()` and `Zst` (the only
+// element types for which a data vector / slice of ANY length up to usize::MAX exists) and two types whose PartialEq
+// is not reflexive (f64 holding NaN, `Tri` whose `Unknown` is never equal to anything).
+//   data of a zero-sized type may be given as `*L` (L elements, built without a loop);
+//   ops: gi g s it dm eq im as above, and
+//   sq m y*m -> P | 0|1|X : y is what the generator expects the tensor to hold now; the tensor is compared (== and !=)
+//        with from_vec(dims, y) in both directions, with ITSELF through two references to the same object, with its
+//        clone in both directions, with from_vec(dims, iter().cloned()) in both directions and element by element under
+//        the element's own PartialEq; X unless all of these give the same answer (and != its negation everywhere).
+trait Lite: Clone + PartialEq + std::fmt::Debug + 'static {
+    fn of(s: &str) -> Self;
+    fn to(&self) -> String;
+}
+
+impl Lite for () {
+    fn of(_: &str) -> Self {}
+    fn to(&self) -> String {
+        "0".into()
+    }
+}
+
+#[derive(Clone, Copy, PartialEq, Debug)]
+struct Zst;
+
+impl Lite for Zst {
+    fn of(_: &str) -> Self {
+        Zst
+    }
+    fn to(&self) -> String {
+        "0".into()
+    }
+}
+
+impl Lite for f64 {
+    fn of(s: &str) -> Self {
+        match s {
+            "nan" => f64::NAN,
+            "-0" => -0.0,
+            _ => p::<i64>(s) as f64,
+        }
+    }
+    fn to(&self) -> String {
+        if self.is_nan() {
+            "nan".into()
+        } else {
+            (*self as i64).to_string()
+        }
+    }
+}
+
+/// three-valued logic: `Unknown` is not equal to anything, itself included
+#[derive(Clone, Copy, Debug)]
+enum Tri {
+    No,
+    Yes,
+    Unknown,
+}
+
+impl PartialEq for Tri {
+    fn eq(&self, other: &Self) -> bool {
+        matches!((self, other), (Tri::No, Tri::No) | (Tri::Yes, Tri::Yes))
+    }
+}
+
+impl Lite for Tri {
+    fn of(s: &str) -> Self {
+        match s {
+            "0" => Tri::No,
+            "1" => Tri::Yes,
+            _ => Tri::Unknown,
+        }
+    }
+    fn to(&self) -> String {
+        match self {
+            Tri::No => "0".into(),
+            Tri::Yes => "1".into(),
+            Tri::Unknown => "nan".into(),
+        }
+    }
+}
+
+/// (a == b, a != b) for two references that may point to the same object
+fn cmp2<T: PartialEq>(a: &T, b: &T) -> (bool, bool) {
+    (a == b, a != b)
+}
+
+fn run_lite<E: Lite, const D: usize>(t: &[&str]) -> String {
+    let mut at = 1;
+    let dims: [usize; D] = arr(t, &mut at);
+    let ctor = t[at];
+    at += 1;
+    let newv: &str = if ctor == "N" {
+        at += 1;
+        t[at - 1]
+    } else {
+        "0"
+    };
+    let data: Vec<E> = if let Some(len) = t[at].strip_prefix('*') {
+        at += 1;
+        assert!(std::mem::size_of::<E>() == 0 && !std::mem::needs_drop::<E>(), "harness: *L needs a zero-sized type");
+        let mut v: Vec<E> = Vec::new();
+        // a Vec of a zero-sized type has capacity usize::MAX and never touches memory
+        unsafe { v.set_len(p(len)) };
+        v
+    } else {
+        let n: usize = p(t[at]);
+        at += 1;
+        let v = (0..n).map(|k| E::of(t[at + k])).collect();
+        at += n;
+        v
+    };
+    let made = guarded(|| match ctor {
+        "V" => Tensor::<E, D>::from_vec(dims, data.clone()),
+        "S" => Tensor::<E, D>::from_slice(dims, &data[..]),
+        "N" => Tensor::<E, D>::new(dims, E::of(newv)),
+        other => {
+            eprintln!("harness: unknown constructor {}", other);
+            std::process::exit(3)
+        }
+    });
+    let mut tensor = match made {
+        Some(x) => x,
+        None => return "P".to_string(),
+    };
+    let mut out = vec!["C".to_string()];
+    while at < t.len() {
+        let op = t[at];
+        at += 1;
+        match op {
+            "gi" => {
+                let idx: [usize; D] = arr(t, &mut at);
+                match guarded(|| tensor.get_index(idx)) {
+                    Some(k) => out.push(k.to_string()),
+                    None => out.push("P".into()),
+                }
+            }
+            "g" => {
+                let idx: [usize; D] = arr(t, &mut at);
+                match guarded(|| tensor[idx].to()) {
+                    Some(x) => out.push(x),
+                    None => out.push("P".into()),
+                }
+            }
+            "s" => {
+                let idx: [usize; D] = arr(t, &mut at);
+                let v = E::of(t[at]);
+                at += 1;
+                match guarded(|| tensor[idx] = v) {
+                    Some(()) => out.push("ok".into()),
+                    None => out.push("P".into()),
+                }
+            }
+            "it" => {
+                let v: Vec<String> = tensor.iter().map(|x| x.to()).collect();
+                let c = tensor.clone();
+                let same = c.dims() == tensor.dims()
+                    && c.iter().map(|x| x.to()).eq(v.iter().cloned())
+                    && c.into_iter().map(|x| x.to()).eq(v.iter().cloned())
+                    && tensor.iter().count() == v.len();
+                if same {
+                    list(&mut out, v.into_iter())
+                } else {
+                    out.push("0".into())
+                }
+            }
+            "dm" => out.extend(tensor.dims().iter().enumerate()
+                .map(|(i, d)| if tensor.dim(i) == *d { d.to_string() } else { "0".to_string() })),
+            "eq" | "sq" => {
+                let edims: [usize; D] = if op == "eq" { arr(t, &mut at) } else { *tensor.dims() };
+                let m: usize = p(t[at]);
+                at += 1;
+                let y: Vec<E> = (0..m).map(|k| E::of(t[at + k])).collect();
+                at += m;
+                let expected_content = tensor.iter().map(|x| x.to()).eq(y.iter().map(|x| x.to()));
+                match guarded(|| Tensor::<E, D>::from_vec(edims, y)) {
+                    Some(u) => {
+                        let mut pairs = vec![cmp2(&tensor, &u), cmp2(&u, &tensor)];
+                        let mut fine = true;
+                        if op == "sq" {
+                            let c = tensor.clone();
+                            let layers = [&tensor, &tensor];
+                            pairs.extend([cmp2(&tensor, &tensor), cmp2(layers[0], layers[1]), cmp2(&c, &c), cmp2(&u, &u),
+                                          cmp2(&tensor, &c), cmp2(&c, &tensor)]);
+                            match guarded(|| Tensor::<E, D>::from_vec(*tensor.dims(), tensor.iter().cloned().collect())) {
+                                Some(r) => pairs.extend([cmp2(&tensor, &r), cmp2(&r, &tensor)]),
+                                None => fine = false,
+                            }
+                            // the comparison the property speaks about: same shape, and the elements agree one by one
+                            let ew = tensor.iter().zip(tensor.iter()).all(|(a, b)| a == b);
+                            pairs.push((ew, !ew));
+                            fine = fine && expected_content;
+                        }
+                        let v = pairs[0].0;
+                        fine = fine && pairs.iter().all(|&(e, n)| e == v && n != v);
+                        out.push(if !fine { "X" } else if v { "1" } else { "0" }.into());
+                    }
+                    None => out.push("P".into()),
+                }
+            }
+            "im" => {
+                let m: usize = p(t[at]);
+                at += 1;
+                let vs: Vec<E> = (0..m).map(|k| E::of(t[at + k])).collect();
+                at += m;
+                let cnt = tensor.iter_mut().count();
+                for (x, v) in tensor.iter_mut().zip(vs) {
+                    *x = v;
+                }
+                out.push(cnt.to_string());
+            }
+            other => {
+                eprintln!("harness: unknown op {} for this element type", other);
+                std::process::exit(3)
+            }
+        }
+    }
+    out.join(" ")
+}
+
+fn lite_rank<E: Lite>(rank: &str, t: &[&str]) -> String {
+    match rank {
+        "0" => run_lite::<E, 0>(t),
+        "1" => run_lite::<E, 1>(t),
+        "2" => run_lite::<E, 2>(t),
+        "3" => run_lite::<E, 3>(t),
+        "4" => run_lite::<E, 4>(t),
+        other => {
+            eprintln!("harness: unsupported rank {}", other);
+            std::process::exit(3)
+        }
+    }
+}
+
 fn main() {
     vh::serve(|t| {
         let (rank, ty) = t[0].split_once(':').unwrap_or((t[0], "i64"));
@@ -701,6 +937,10 @@ fn main() {
             "t2" => low_rank::<(i64, u8)>(rank, t),
             "t3" => low_rank::<(u8, i64, u16)>(rank, t),
             "tc" => low_rank::<(char, u32)>(rank, t),
+            "unit" => lite_rank::<()>(rank, t),
+            "zst" => lite_rank::<Zst>(rank, t),
+            "f64" => lite_rank::<f64>(rank, t),
+            "tri" => lite_rank::<Tri>(rank, t),
             other => {
                 eprintln!("harness: unsupported element type {}", other);
                 std::process::exit(3)
